@@ -37,6 +37,19 @@ fn main() {
             std::process::exit(2);
         }
     }
+    if prop == "simstats" {
+        // Informational: reconstruction statistics of the forward model (C12's numbers; not a check).
+        #[cfg(feature = "sim")]
+        {
+            sim::stats(seed, if thorough { 1000 } else { 200 }, &out);
+            return;
+        }
+        #[allow(unreachable_code)]
+        {
+            eprintln!("simstats needs feature sim");
+            std::process::exit(2);
+        }
+    }
     if prop == "replay" {
         for line in std::fs::read_to_string(&file).expect("replay file").lines() {
             if line.trim().is_empty() || line.starts_with('#') { continue; }
